@@ -468,7 +468,7 @@ def main_thread_signals(ctx: Ctx, for_prop: str = "C11") -> list[dict]:
 
     envv = dict(os.environ)
     envv["PYTHONPATH"] = os.pathsep.join(p for p in sys.path if p)
-    modes = ["sigint-after-pop", "sigterm-after-pop", "sigterm-in-reclaim"]
+    modes = ["sigint-after-pop", "sigterm-after-pop", "sigterm-in-reclaim"] + (["sigint-twice", "sigterm-twice"] if for_prop == "C11" else [])
 
     def one(k: int, mode: str) -> dict:
         arg = {"tmp": ctx.tmp, "app_id": f"c11main{for_prop}{k}", "mode": mode}
@@ -478,7 +478,7 @@ def main_thread_signals(ctx: Ctx, for_prop: str = "C11") -> list[dict]:
         d["mode"] = mode
         return d
 
-    with ThreadPoolExecutor(max_workers=3) as ex:
+    with ThreadPoolExecutor(max_workers=5) as ex:
         res = list(ex.map(lambda km: one(*km), enumerate(modes)))
     if for_prop != "C11":
         return res
@@ -486,6 +486,10 @@ def main_thread_signals(ctx: Ctx, for_prop: str = "C11") -> list[dict]:
         ctx.count()
         ctx.distinct(("main-thread-signal", d["mode"], d.get("status_after_stop")))
         rep = {"kind": "main-thread-signal", "mode": d["mode"], "result": d}
+        if "crashed" in d and d["mode"].endswith("-twice") and d.get("rc") in (-15, -2, 143, 130):
+            ctx.report(f"stop-killed-by-repeated-signal:{d['mode']}", f"a ThreadRunner whose loop is the main thread receives its stop signal twice ({d['mode']}): the process was KILLED by the second one "
+                                                                      f"(rc {d.get('rc')}) in the middle of the stop - whatever was still RUNNING stays owned by a dead runner", rep)
+            continue
         if "crashed" in d:
             ctx.obligation("the main-thread signal probe of C11 ran", False, str(d)[:300])
             continue
